@@ -28,7 +28,9 @@ RunEnd(s, i, c) == IF At(s, i) = c THEN RunEnd(s, i+1, c) ELSE i        \* first
 \* ---------- items and stack ----------
 \* item: [id, lo, hi, k, kids]   k: "text" | "emph" | "strong" | "link" | "image" | "code"     spans are [lo,hi) 1-based
 \* stack entry: [id, typ, n, open, close, active]
-Item(id, lo, hi, k, kids) == [id |-> id, lo |-> lo, hi |-> hi, k |-> k, kids |-> kids]
+Item(id, lo, hi, k, kids) == [id |-> id, lo |-> lo, hi |-> hi, k |-> k, kids |-> kids, x |-> <<>>]
+\* x: extra data of a link / image: [ref (normalized label or <<>>), dlo, dhi (destination text, 0 0: none), tlo, thi (title text, 0 0: none)]
+ItemX(id, lo, hi, k, kids, x) == [id |-> id, lo |-> lo, hi |-> hi, k |-> k, kids |-> kids, x |-> x]
 PosOf(items, id) == CHOOSE p \in 1..Len(items) : items[p].id = id
 Del(q, a, b) == SubSeq(q, 1, a-1) \o SubSeq(q, b+1, Len(q))            \* remove a..b inclusive
 
@@ -66,9 +68,13 @@ ProcEmph(items, st, cur, bottom) ==
             IN ProcEmph(items2, st2, (j - 1) + Len(stO) + 1, bottom)
 
 \* ---------- link syntax ----------
-\* skip spaces (single line prototype): returns index
-RECURSIVE SkipSp(_, _)
-SkipSp(s, i) == IF At(s, i) = SP THEN SkipSp(s, i+1) ELSE i
+\* line endings: LF, CR, CRLF
+IsEOLb(b) == b \in {LF, 13}
+EolEnd(s, i) == IF At(s, i) = 13 /\ At(s, i+1) = LF THEN i + 2 ELSE i + 1     \* index after the line ending that starts at i
+RECURSIVE SkipSpT(_, _)
+SkipSpT(s, i) == IF At(s, i) \in {SP, 9} THEN SkipSpT(s, i+1) ELSE i
+\* white space inside a link tail: spaces, tabs and at most one line ending
+SkipSp(s, i) == LET a == SkipSpT(s, i) IN IF IsEOLb(At(s, a)) THEN SkipSpT(s, EolEnd(s, a)) ELSE a
 
 \* destination starting at i (not '<' form in this prototype when '<' is not in the alphabet): returns end index (exclusive) or 0 if invalid; may be empty (end = i)
 RECURSIVE DestEnd(_, _, _)
@@ -97,18 +103,26 @@ TitleEnd(s, i, closeCh, openCh) ==
   ELSE IF c = openCh /\ openCh = LP THEN 0
   ELSE TitleEnd(s, i+1, closeCh, openCh)
 
-\* inline link tail starting at i = index of '(' : returns end index (exclusive, after ')') or 0
-InlineTail(s, i) ==
-  IF At(s, i) # LP THEN 0
+\* inline link tail starting at i = index of '(' : [end (exclusive, after ')'; 0: no tail), dlo, dhi (destination text, 0 0: none), tlo, thi (title text)]
+NoTail == [end |-> 0, dlo |-> 0, dhi |-> 0, tlo |-> 0, thi |-> 0]
+InlineTailRec(s, i) ==
+  IF At(s, i) # LP THEN NoTail
   ELSE LET a == SkipSp(s, i+1)
-           de == IF At(s, a) = LT THEN AngleDestEnd(s, a+1) ELSE DestEnd(s, a, 0)
-       IN IF de = 0 THEN 0
+           angle == At(s, a) = LT
+           de == IF angle THEN AngleDestEnd(s, a+1) ELSE DestEnd(s, a, 0)
+           dlo == IF angle THEN a + 1 ELSE a
+           dhi == IF angle THEN de - 1 ELSE de
+       IN IF de = 0 THEN NoTail
           ELSE LET b == SkipSp(s, de)
                    tc == At(s, b)
                    hasTitle == tc \in {DQ, 39, LP} /\ b > de
                    te == IF hasTitle THEN TitleEnd(s, b+1, (IF tc = LP THEN RP ELSE tc), tc) ELSE b
-               IN IF hasTitle /\ te = 0 THEN (IF At(s, b) = RP THEN b + 1 ELSE 0)
-                  ELSE LET e == SkipSp(s, te) IN IF At(s, e) = RP THEN e + 1 ELSE 0
+                   base == [end |-> 0, dlo |-> (IF de > a THEN dlo ELSE 0), dhi |-> (IF de > a THEN dhi ELSE 0), tlo |-> 0, thi |-> 0]
+               IN IF hasTitle /\ te = 0 THEN (IF At(s, b) = RP THEN [base EXCEPT !.end = b + 1] ELSE NoTail)
+                  ELSE LET e == SkipSp(s, te) IN
+                       IF At(s, e) = RP THEN [base EXCEPT !.end = e + 1, !.tlo = (IF hasTitle THEN b + 1 ELSE 0), !.thi = (IF hasTitle THEN te - 1 ELSE 0)]
+                       ELSE NoTail
+InlineTail(s, i) == InlineTailRec(s, i).end
 
 \* link label starting at '[' index i: returns end (exclusive, after ']') or 0. content must have a non-space char, no unescaped brackets
 RECURSIVE LabelEnd(_, _, _)
@@ -119,11 +133,17 @@ LabelEnd(s, i, seen) ==
   ELSE IF c = RB THEN (IF seen THEN i + 1 ELSE 0)
   ELSE LabelEnd(s, i+1, seen \/ ~IsWSb(c))
 
-\* the only defined reference label in the prototype is "a" (case-insensitive not needed in the alphabet)
-LabelIsDefined(s, lo, hi) ==     \* content in [lo,hi)
-  LET body == SubSeq(s, lo, hi-1)
-      trimmed == SelectSeq(body, LAMBDA b : b # SP)
-  IN trimmed = <<97>> /\ \A k \in 1..Len(body) : body[k] \in {97, SP}
+\* reference labels are matched in normalized form: white space (spaces, tabs, line endings) collapsed to one space and trimmed,
+\* ASCII letters folded to lower case (the alphabets hold no other letters); defs = the set of normalized labels that are defined
+LowerA(b) == IF b >= 65 /\ b <= 90 THEN b + 32 ELSE b
+RECURSIVE Collapse(_, _, _)
+Collapse(body, i, pendingSp) ==
+  IF i > Len(body) THEN <<>>
+  ELSE IF IsWSb(body[i]) /\ body[i] # 12 THEN Collapse(body, i + 1, TRUE)
+  ELSE (IF pendingSp THEN <<SP>> ELSE <<>>) \o <<LowerA(body[i])>> \o Collapse(body, i + 1, FALSE)
+NormLabel(body) == LET c == Collapse(body, 1, FALSE) IN IF c # <<>> /\ c[1] = SP THEN Tail(c) ELSE c
+LabelIsDefined(defs, s, lo, hi) == NormLabel(SubSeq(s, lo, hi-1)) \in defs     \* content in [lo,hi)
+DefaultDefs == { <<97>> }           \* the single-line alphabets are replayed with "[a]: /u" defined
 
 
 \* ---------- autolinks and raw HTML (section 6.5, 6.6) ----------
@@ -252,25 +272,28 @@ CloseBracket(S, s) ==     \* S.pos is at ']'
               pa == PosOf(S.items, op.id)
               oi == S.items[pa]
               isImg == op.typ = BANG
-              inl == InlineTail(s, p+1)
+              tail == InlineTailRec(s, p+1)
+              inl == tail.end
               \* reference forms
               full == IF At(s, p+1) = LB /\ At(s, p+2) # RB THEN LabelEnd(s, p+2, FALSE) ELSE 0
-              fullOK == full > 0 /\ LabelIsDefined(s, p+2, full-1)
+              fullOK == full > 0 /\ LabelIsDefined(S.defs, s, p+2, full-1)
               collapsed == At(s, p+1) = LB /\ At(s, p+2) = RB
-              selfOK == LabelIsDefined(s, oi.hi, p) /\ LabelEnd(s, oi.hi, FALSE) = p + 1
+              selfOK == LabelIsDefined(S.defs, s, oi.hi, p) /\ LabelEnd(s, oi.hi, FALSE) = p + 1
               end == IF inl > 0 THEN inl
                      ELSE IF full > 0 THEN (IF fullOK THEN full ELSE 0)
                      ELSE IF collapsed THEN (IF selfOK THEN p + 3 ELSE 0)
                      ELSE IF selfOK THEN p + 1 ELSE 0
+              x == IF inl > 0 THEN [ref |-> <<>>, dlo |-> tail.dlo, dhi |-> tail.dhi, tlo |-> tail.tlo, thi |-> tail.thi]
+                   ELSE [ref |-> (IF full > 0 THEN NormLabel(SubSeq(s, p+2, full-2)) ELSE NormLabel(SubSeq(s, oi.hi, p-1))), dlo |-> 0, dhi |-> 0, tlo |-> 0, thi |-> 0]
           IN IF end = 0 THEN [literal EXCEPT !.st = Del(S.st, bi, bi)]
              ELSE LET pe == ProcEmph(S.items, S.st, bi + 1, bi)       \* emphasis inside the brackets
                       its == pe.items
                       pa2 == PosOf(its, op.id)
-                      node == Item(S.nid, oi.lo, end, (IF isImg THEN "image" ELSE "link"), SubSeq(its, pa2+1, Len(its)))
+                      node == ItemX(S.nid, oi.lo, end, (IF isImg THEN "image" ELSE "link"), SubSeq(its, pa2+1, Len(its)), x)
                       items2 == Append(SubSeq(its, 1, pa2-1), node)
                       st1 == SubSeq(pe.st, 1, bi-1)
                       st2 == IF isImg THEN st1 ELSE [k \in 1..Len(st1) |-> IF st1[k].typ = LB THEN [st1[k] EXCEPT !.active = FALSE] ELSE st1[k]]
-                  IN [pos |-> end, items |-> items2, st |-> st2, nid |-> S.nid + 1]
+                  IN [S EXCEPT !.pos = end, !.items = items2, !.st = st2, !.nid = S.nid + 1]
 
 \* closing backtick run of exactly n, searching from i; returns start index or 0
 RECURSIVE FindTicks(_, _, _)
@@ -283,6 +306,29 @@ RECURSIVE Scan(_, _, _)
 Scan(S, s, tstart) ==      \* tstart: start of pending plain text
   LET p == S.pos  c == At(s, p) IN
   IF c = -1 THEN TextItem(S, tstart, p)
+  ELSE IF IsEOLb(c) THEN
+       \* the last line ending of the content belongs to no node; any other one is a soft break, and the spaces and tabs
+       \* that begin the next line are dropped
+       LET be == EolEnd(s, p) IN
+       IF be > Len(s) THEN TextItem(S, tstart, p)
+       ELSE LET S1 == TextItem(S, tstart, p)
+                nx == SkipSpT(s, be)
+            IN Scan([S1 EXCEPT !.items = Append(@, Item(S1.nid, p, be, "soft", <<>>)), !.nid = @ + 1, !.pos = nx], s, nx)
+  ELSE IF c = SP /\ (IsEOLb(At(s, RunEnd(s, p, SP))) \/ At(s, RunEnd(s, p, SP)) = -1) THEN
+       \* spaces at the end of a line: two or more before a line ending that is not the last one are a hard break
+       \* (the break includes the line ending); otherwise they are dropped
+       LET e == RunEnd(s, p, SP)
+           S1 == TextItem(S, tstart, p)
+       IN IF At(s, e) = -1 \/ EolEnd(s, e) > Len(s) THEN S1
+          ELSE IF e - p >= 2
+               THEN LET be == EolEnd(s, e)  nx == SkipSpT(s, be)
+                    IN Scan([S1 EXCEPT !.items = Append(@, Item(S1.nid, p, be, "hard", <<>>)), !.nid = @ + 1, !.pos = nx], s, nx)
+               ELSE Scan([S1 EXCEPT !.pos = e], s, e)
+  ELSE IF c = BS /\ IsEOLb(At(s, p+1)) /\ EolEnd(s, p+1) <= Len(s) THEN
+       \* backslash hard break (not at the end of the content, where the backslash is literal)
+       LET S1 == TextItem(S, tstart, p)
+           be == EolEnd(s, p+1)  nx == SkipSpT(s, be)
+       IN Scan([S1 EXCEPT !.items = Append(@, Item(S1.nid, p, be, "hard", <<>>)), !.nid = @ + 1, !.pos = nx], s, nx)
   ELSE IF c = BS THEN
        (IF IsPunct(At(s, p+1))
         THEN LET S1 == TextItem(S, tstart, p) IN Scan([TextItem(S1, p+1, p+2) EXCEPT !.pos = p + 2], s, p + 2)
@@ -331,9 +377,10 @@ Scan(S, s, tstart) ==      \* tstart: start of pending plain text
             IN Scan([S1 EXCEPT !.items = Append(@, Item(S1.nid, p, e, "ent", <<>>)), !.nid = @ + 1, !.pos = e], s, e)
   ELSE Scan([S EXCEPT !.pos = p + 1], s, tstart)
 
-ParseInline(s) ==
-  LET S == Scan([pos |-> 1, items |-> <<>>, st |-> <<>>, nid |-> 1], s, 1)
+ParseInlineWith(s, defs) ==
+  LET S == Scan([pos |-> 1, items |-> <<>>, st |-> <<>>, nid |-> 1, defs |-> defs], s, 1)
   IN ProcEmph(S.items, S.st, 1, 0).items
+ParseInline(s) == ParseInlineWith(s, DefaultDefs)
 
 \* structural skeleton: nested [k, lo, hi, kids] of non-text nodes (0-based byte offsets, half-open)
 RECURSIVE Nodes(_)
